@@ -13,40 +13,40 @@ CHECKS = {
  "C06": ("reng", "exploration", "runtime monitoring: revert-on-copy image comparison of every retained user snapshot at quiescent points; Controller.Revert through REST on real processes followed by a full read",
          "Held on the generated histories: at every quiescent point the image of every retained user-created snapshot, obtained by reverting an extent-exact copy of the directory with the real code, equals the image recorded at creation; in-place reverts are compared with the image as well; on real replica processes every user snapshot taken through the controller had the model's image on every replica, kept it through deletions, a rebuild and cleaner merges, and a volume revert through the controller read back exactly that image.",
          "Reclamation on in 80% of cases; automatic snapshots are not verdict-bearing.", "DESIGN.md 4/C06"),
- "C10": ("reng", "exploration", "runtime monitoring: counter model compared after every step; concurrent writers with bounds on concurrent samples",
+ "C10": ("reng", "exploration", "runtime monitoring: counter model compared after every step; concurrent writers with bounds on concurrent samples; counter agreement of all RW-listed replicas at settled points of controller histories",
          "Held on the generated histories: cached and persisted revision counter equal a model (+1 per applied write in RW, +0 in WO, explicit sets only in RW) after every step, across reopen, and under 2-16 concurrent writers (final == initial + N*M, concurrent samples between completed and issued).",
          "Crash points of the counter update are covered by C08; promotion equalisation by the controller engine.", "DESIGN.md 4/C10"),
  "C11": ("reng", "exploration", "runtime monitoring: cleaner-filter output checked against the property's predicate + before/after image comparison around deletions; on real processes a watcher over every replica's REST state checks each background removal against the predicate",
          "Held on the generated histories: every name returned by the real candidate filter satisfies the property's predicate on the model chain; deletions through the cleaner route and the user route leave the live image and all retained user snapshots unchanged; in the real-process scenario (user deletions through the controller, a rebuild, the replicas' own cleaners merging under writes) every observed background removal satisfied the predicate and live data and retained user snapshots stayed equal to the model on every replica.",
          "The real cleaner loop (60 s ticker) runs in two replica-engine workers with a failing fold and, untouched, inside the real replica processes of the cluster scenario; its retention count is lowered only in the replica-engine workers.", "DESIGN.md 4/C11"),
- "C12": ("reng", "exploration", "runtime monitoring: chain well-formedness + model equality after every valid and hostile management request, and across close/open",
+ "C12": ("reng", "exploration", "runtime monitoring: chain well-formedness (files, attributes, parent/children links) + model equality after every valid and hostile management request, and across close/open; names of deleted snapshots reused",
          "Held on the generated request sequences: after every request (valid, refused or no-op) the chain equals the model chain, is a simple path whose members all have data and metadata files, attributes and full read are unchanged by refused requests, and close+open reproduces chain, attributes, size, checkpoint and data.",
          "Replica-level API (what the REST handlers call); REST-level malformed input is C14's.", "DESIGN.md 4/C12"),
  "C16": ("reng", "exploration", "runtime monitoring: model comparison around resize requests (grow / shrink / garbage) incl. snapshot images, reopen and a copy of the directory taken when the call returns",
          "Held on the generated histories: growth keeps the old range and every snapshot image, the added range reads zero and accepts writes, the size survives reopen and is already on disk when the call returns; shrink, garbage, empty and zero sizes are refused and change nothing.",
          "Replica side on the real engine; the controller side of Resize is exercised by the controller engine.", "DESIGN.md 4/C16"),
- "C17": ("reng", "exploration", "runtime monitoring: state-walk with every operation probed in every state, side effects detected by directory hash and counter",
+ "C17": ("reng", "exploration", "runtime monitoring: state-walk with every operation probed in every state (incl. an open whose last step fails), side effects detected by directory hash and counter",
          "Held on the generated walks over closed / open-without-mode / RW / WO: I/O and management calls fail on a closed replica without touching the directory, writes are applied only in RW/WO, chain surgery and counter updates are refused outside RW without side effects.",
          "Engine-level gates; the REST action table and the attach-only-when-closed clause are checked by the REST engine.", "DESIGN.md 4/C17"),
- "C02": ("ctlsim", "exploration", "runtime monitoring: per-operation quorum oracle over scripted per-replica outcomes + per-replica image comparison",
+ "C02": ("ctlsim", "exploration", "runtime monitoring: per-operation quorum oracle over scripted per-replica outcomes (incl. answers released at the same instant by a barrier) + per-replica image comparison; thorough: errno injection into a running replica process with strace",
          "Held on the generated controller histories (RF 1..5, all fault kinds per replica per operation): no write/flush/unmap was acknowledged unless strictly more than half of the attached replicas applied it, every replica that failed an operation was detached when the call returned, and at quiescent points every attached replica held every acknowledged write.",
          "Scripted backends honour the backend contract; the rpc transport itself is C15's.", "DESIGN.md 4/C02"),
- "C03": ("ctlsim", "exploration", "runtime monitoring: read-only rule evaluated at settled points of membership walks, with probe I/O",
+ "C03": ("ctlsim", "exploration", "runtime monitoring: read-only rule evaluated at settled points of membership walks (hooked state and GET /v1/volumes), with probe I/O and a quorum-loss race",
          "Held on the generated membership walks: at every settled point ReadOnly == (#RW < RF/2+1); mutating probes were refused without reaching a replica iff read-only and accepted whenever a quorum was RW.",
          "Evaluated at settled points (every triggered monitor event acted upon).", "DESIGN.md 4/C03"),
  "C04": ("ctlsim", "exploration", "runtime monitoring: per-read oracle (who served, what was returned) at every cursor position with read faults",
          "Held on the generated histories: reads reached RW replicas only (WO/ERR replicas hold a poison pattern), successful reads equalled the model of acknowledged writes, failed readers were detached and another RW replica served, and reads failed when no RW replica existed.",
          "Same fakes as C02.", "DESIGN.md 4/C04"),
- "C05": ("ctlsim", "exploration", "runtime monitoring: minority-failure oracle over all three failure detectors in every order",
+ "C05": ("ctlsim", "exploration", "runtime monitoring: minority-failure oracle over all three failure detectors in every order; real processes: SIGKILL/SIGSTOP and strace-injected disk errors (EIO/ENOSPC on pwrite/fsync/pread) on one of three replicas under load",
          "Held on the generated histories: whenever the survivors of an operation formed a majority including an RW replica the operation was acknowledged; failed replicas were ERR-or-absent at return and absent once their monitor event was consumed; detached replicas received no further call and came back only through add + sync + verify.",
          "Process kills of real replicas are exercised by the cluster engine.", "DESIGN.md 4/C05"),
- "C09": ("ctlsim", "exploration", "runtime monitoring: election oracle against harness ground truth (revision, state, liveness) over enumerated registration orders",
+ "C09": ("ctlsim", "exploration", "runtime monitoring: election oracle against harness ground truth (revision, state, liveness) over enumerated registration orders, quorum-type registrants and concurrent re-registrations after the leader died",
          "Held on the generated bootstrap sequences: no start signal before a majority registered, every fresh election chose a replica of maximal revision among registered, reachable, non-rebuilding ones, only the elected replica could start the volume, lower-revision replicas named in Start were not RW and served no read.",
          "Full stop-and-restart of real replicas is exercised by the cluster engine.", "DESIGN.md 4/C09"),
  "C13": ("ctlsim", "exploration", "runtime monitoring: per-replica totally ordered applied logs compared across replicas; checkpoint invariant at settled points",
          "Held on the generated histories: under 2-4 concurrent writers with per-call delays every snapshot cut the write stream at the same point on all replicas; snapshots were refused unless all RF were RW; a recorded checkpoint always implied all RF RW, presence in every chain, persistence on every replica and (when newly recorded) agreement on the latest snapshot; it was withdrawn when a replica left.",
          "Byte-identity of snapshot images on real replica directories is exercised by the cluster engine.", "DESIGN.md 4/C13"),
- "C18": ("ctlsim", "exploration", "runtime monitoring: structural invariants of the controller's three membership structures at settled points (hooked state) + call logs",
+ "C18": ("ctlsim", "exploration", "runtime monitoring: structural invariants of the controller's three membership structures at settled points (hooked state, compared with what GET /v1/replicas reports) + call logs; scripted failures of single admission steps",
          "Held on the generated membership walks: replica list, replicator backend map, reader and writer lists and RWReplicaCount agreed at every settled point; no duplicates, never more than RF replicas or more than one WO; writes reached exactly the writers and detached replicas received no call after Close.",
          "State read through the verif-tagged VerifState hook under the controller lock.", "DESIGN.md 4/C18"),
  "C08": ("crashpt", "fault_enumeration", "runtime monitoring with ptrace-level fault injection: strace kills the victim before every state-changing syscall of the operation and fails every call once; a checker process reopens the directory with the real code",
@@ -90,9 +90,9 @@ def main():
         "kind_free_text": "real controller/rest and replica/rest routers driven in-process; journal-before-execute, panic capture, liveness + TryLock oracle; action-table matrix and attach rule with the real remote.Factory"},
        {"name": "rpcsim", "path": "harness/internal/rpcsim", "serves_properties": ["C15"],
         "kind_free_text": "real rpc.Client / rpc.Wire / rpc.Server over loopback TCP against a scripted peer with an independent frame codec; porcupine for end-to-end histories"},
-       {"name": "cluster", "path": "harness/internal/cluster", "serves_properties": ["C05", "C06", "C07", "C09", "C10", "C11", "C12", "C13", "C19"],
+       {"name": "cluster", "path": "harness/internal/cluster", "serves_properties": ["C02", "C04", "C05", "C06", "C07", "C09", "C10", "C11", "C12", "C13", "C19"],
         "kind_free_text": "in-process controller with the real remote factory + REST server, real jiva replica and sync-agent OS processes on their own loopback addresses, supervisor-style kill/restart, model of acknowledged writes"},
-       {"name": "ctlsim", "path": "harness/internal/ctlsim", "serves_properties": ["C01", "C02", "C03", "C04", "C05", "C09", "C13", "C16", "C18"],
+       {"name": "ctlsim", "path": "harness/internal/ctlsim", "serves_properties": ["C01", "C02", "C03", "C04", "C05", "C09", "C10", "C13", "C16", "C18", "C19"],
         "kind_free_text": "real controller.Controller over scripted types.Backend fakes (per-call outcome scripts, applied logs, remote.Remote-like monitor channel) + HTTP stubs of the replica REST API"},
      ],
      "checks": [],
